@@ -14,11 +14,12 @@ import Ldap3V.Driver.Setup
 import Ldap3V.Driver.Sync
 import Ldap3V.Driver.Explore
 import Ldap3V.Driver.Tls
+import Ldap3V.Driver.StreamTimed
 open Ldap3V.Driver
 
 def handlers : List (String → String → Option String) :=
   [handleBer, handleEnvelope, handleFilter, handleEscape, handleEntry, handleCodecs, handleUrl,
-   handleRequests, handleResults, handleConn, handleStream, handleSetup, handleSync, handleExplore, handleTls]
+   handleRequests, handleResults, handleConn, handleStream, handleSetup, handleSync, handleExplore, handleTls, handleStreamTimed]
 
 def dispatch (line : String) : String :=
   let (cmd, arg) := splitCmd line
